@@ -513,4 +513,105 @@ def Multi.intersection (m : Multi) (_ : Other) : Except Err Multi := m.copy
 def Multi.difference (m : Multi) (_ : Other) : Except Err Multi := m.copy
 def Multi.invert (m : Multi) (_ : Nat) : Except Err Multi := m.copy
 
+
+/-! ### programs over a pool of named sets
+
+Op programs in which the result of one operation is the operand (on either side) of a later one:
+`r2 = r0 - r1; r3 = r0 & r2; r0 &= r3 …`.  A `BitSet` register is its byte array — of **any**
+length, including zero: a `BitSet`'s array is empty exactly when it is the trimmed result of an
+earlier `_logic` call or comes from `BitSet.from_bytes(b"")`. -/
+
+inductive BinOp where
+  | union | inter | diff
+  deriving Repr, DecidableEq
+
+/-- a register as the argument of a binary method: a `BitSet` is recognised by `isinstance`, a
+    `SortedIntSet` is "any other iterable container". -/
+def Inner.asOther : Inner → Other
+  | .bits b => .bits b
+  | .sorted d => .list d false
+
+/-- `a.union(o)` / `a | o`, `a.intersection(o)` / `a & o`, `a.difference(o)` / `a - o`
+    (`DocIdSet.__or__/__and__/__sub__` call the methods). -/
+def Inner.bin (a : Inner) (op : BinOp) (o : Other) : Except Err Inner :=
+  match a, op with
+  | .bits x, .union => .ok (.bits (IdSets.union x o))
+  | .bits x, .inter => .ok (.bits (IdSets.intersection x o))
+  | .bits x, .diff => .ok (.bits (IdSets.difference x o))
+  | .sorted d, .union => (sisUpdate d o).map .sorted      -- `DocIdSet.union`: copy, update
+  | .sorted d, .inter => .ok (.sorted (sisIntersection d o))
+  | .sorted d, .diff => .ok (.sorted (sisDifference d o))
+
+/-- `a.update(o)`, `a.intersection_update(o)`, `a.difference_update(o)`. -/
+def Inner.upd (a : Inner) (op : BinOp) (o : Other) : Except Err Inner :=
+  match a, op with
+  | .bits x, .union => .ok (.bits (IdSets.update x o))
+  | .bits x, .inter => .ok (.bits (IdSets.intersectionUpdate x o))
+  | .bits x, .diff => .ok (.bits (IdSets.differenceUpdate x o))
+  | .sorted d, .union => (sisUpdate d o).map .sorted
+  | .sorted d, .inter => .ok (.sorted (sisIntersection d o))
+  | .sorted d, .diff => .ok (.sorted (sisDifference d o))
+
+/-- `a.invert_update(size)` / `a.invert(size)`. -/
+def Inner.invert (a : Inner) (size : Nat) : Except Err Inner :=
+  match a with
+  | .bits x => (invertUpdate x size).map .bits
+  | .sorted d => (sisInvertUpdate d size).map .sorted
+
+/-- `a.clear()`. -/
+def Inner.clear : Inner → Inner
+  | .bits x => .bits (IdSets.clear x)
+  | .sorted _ => .sorted []
+
+abbrev Pool := List Inner
+
+/-- The state-changing operations of a pool program (queries go through the single-set models). -/
+inductive PoolOp where
+  /-- `r[dst] = r[a].op(r[b])` (method or operator form) -/
+  | bin (op : BinOp) (dst a b : Nat)
+  /-- `r[a].op_update(r[b])` -/
+  | upd (op : BinOp) (a b : Nat)
+  | add (a i : Nat)
+  | discard (a i : Nat)
+  | clear (a : Nat)
+  /-- `r[dst] = r[a].invert(size)` -/
+  | invert (dst a size : Nat)
+  | invupd (a size : Nat)
+  /-- `r[dst] = r[a].copy()` -/
+  | copy (dst a : Nat)
+  /-- `r[dst] = BitSet.from_bytes(..)` / `BitSet(source, size)` / `SortedIntSet(source)` -/
+  | load (dst : Nat) (x : Inner)
+
+/-- assign register `dst` (an index outside the pool is an error of the program, `index`). -/
+def Pool.assign (p : Pool) (dst : Nat) (x : Inner) : Except Err Pool :=
+  if dst < p.length then .ok (p.set dst x) else .error .index
+
+def Pool.reg (p : Pool) (a : Nat) : Except Err Inner :=
+  match p[a]? with
+  | some x => .ok x
+  | none => .error .index
+
+/-- one step of a pool program. -/
+def Pool.step (p : Pool) : PoolOp → Except Err Pool
+  | .bin op dst a b => do
+    let x ← p.reg a; let y ← p.reg b
+    p.assign dst (← x.bin op y.asOther)
+  | .upd op a b => do
+    let x ← p.reg a; let y ← p.reg b
+    p.assign a (← x.upd op y.asOther)
+  | .add a i => do p.assign a (← (← p.reg a).add i)
+  | .discard a i => do p.assign a (← (← p.reg a).discard i)
+  | .clear a => do p.assign a (← p.reg a).clear
+  | .invert dst a size => do p.assign dst (← (← p.reg a).invert size)
+  | .invupd a size => do p.assign a (← (← p.reg a).invert size)
+  | .copy dst a => do p.assign dst (← p.reg a)
+  | .load dst x => p.assign dst x
+
+/-- a whole program; stops at the first error. -/
+def Pool.run (p : Pool) : List PoolOp → Except Err Pool
+  | [] => .ok p
+  | op :: ops => match p.step op with
+    | .error e => .error e
+    | .ok p' => Pool.run p' ops
+
 end WM.IdSets
